@@ -54,8 +54,16 @@ fn state_value_text(v: &StateValue) -> String {
 }
 
 fn run_command(cmd: &str, args: &[String]) -> String {
+    run_command_after(cmd, args, &[], "")
+}
+
+/// the same call after earlier lines of the SAME run: `env` values are in variables e0.., `pre` is script text
+fn run_command_after(cmd: &str, args: &[String], env: &[String], pre: &str) -> String {
     let mut context = sdk_context(true);
-    let mut script = format!("out = {}", cmd);
+    for (i, a) in env.iter().enumerate() {
+        context.variables.insert(format!("e{}", i), a.clone());
+    }
+    let mut script = format!("{}__first_err = set\nout = {}", pre, cmd);
     for (i, a) in args.iter().enumerate() {
         context.variables.insert(format!("v{}", i), a.clone());
         script.push_str(&format!(" ${{v{}}}", i));
@@ -94,6 +102,8 @@ fn run_command(cmd: &str, args: &[String]) -> String {
 fn main() {
     serve(|f| match f[0] {
         "R" if f.len() == 3 => run_command(f[1], &dec_list(f[2])),
+        // RH <cmd> <args> <env> <earlier lines>: the call after a history in the same run
+        "RH" if f.len() == 5 => run_command_after(f[1], &dec_list(f[2]), &dec_list(f[3]), &dec_str(f[4])),
         "WS" => {
             let mut s = String::new();
             for cp in 0u32..0x110000 {
